@@ -97,10 +97,11 @@ def _intersection_loop(
     n_points += 1
 
     # Determine the new closest point
-    success, search_direction[:], v_len_sq, simplex = get_closest_point_to_origin(
+    success, closest_point, v_len_sq, simplex = get_closest_point_to_origin(
         Y, n_points, prev_v_len_sq)
     if not success:
         return GjkState.NoIntersection, n_points, prev_v_len_sq
+    search_direction[:] = closest_point
 
     # If there are 4 points, the origin is inside the tetrahedron and we're done
     if simplex == 0xf:
